@@ -329,9 +329,23 @@ func instrument(fset *token.FileSet, info *types.Info, f *ast.File, rel string) 
 				return false
 			}
 			if c.labeled[n] {
-				// keep the label on the switch: hoist temporaries is impossible, refuse
-				err = fmt.Errorf("%s: labeled select not supported", fset.Position(n.Pos()))
-				return false
+				// L: select {...}  becomes  L: for { temporaries; switch {...}; break }
+				// so that both `break L` and `goto L` keep their meaning
+				// (the for form only when `break L` occurs: a labeled block keeps the statement terminating)
+				usesBreak := false
+				if ls, ok := cur.Parent().(*ast.LabeledStmt); ok {
+					ast.Inspect(n, func(x ast.Node) bool {
+						if b, ok := x.(*ast.BranchStmt); ok && b.Tok == token.BREAK && b.Label != nil && b.Label.Name == ls.Label.Name {
+							usesBreak = true
+						}
+						return true
+					})
+				}
+				if usesBreak {
+					blk := r.(*ast.BlockStmt)
+					blk.List = append(blk.List, &ast.BranchStmt{Tok: token.BREAK})
+					r = &ast.ForStmt{Body: blk}
+				}
 			}
 			cur.Replace(r)
 		case *ast.RangeStmt:
